@@ -155,8 +155,12 @@ def others(rep, rng, tier):
                 fails.append(('one_time_shuffle', {'values': vals, 'out': out}))
             np.random.seed(seed % (1 << 31))
             reps = rng.choice([1, 2, 3])
-            tout = list(ds.tile(reps, shuffle=True))
-            if n and [sorted(tout[r * n:(r + 1) * n]) for r in range(reps)] != [sorted(vals)] * reps:
+            try:
+                tout = list(ds.tile(reps, shuffle=True))
+            except Exception as e:  # noqa   (tiling a dataset never raises)
+                tout = None
+                fails.append(('tile_shuffle', {'values': vals, 'reps': reps, 'error': repr(e)[:200]}))
+            if tout is not None and ((n and [sorted(tout[r * n:(r + 1) * n]) for r in range(reps)] != [sorted(vals)] * reps) or len(tout) != n * reps):
                 fails.append(('tile_shuffle', {'values': vals, 'reps': reps, 'out': tout}))
             if n:
                 size = rng.randint(1, n)
@@ -186,7 +190,10 @@ def others(rep, rng, tier):
                             or ('choice' not in nm and sorted(ki) != pairs):
                         fails.append(('shuffled_items_not_input_pairs', {'view': nm, 'input_pairs': pairs, 'items': ki, 'plain_iteration': plain}))
                 np.random.seed(seed % (1 << 31))
-                tki = [tuple(kv) for kv in ds.tile(reps, shuffle=True).items()] if reps == 1 else None
+                try:
+                    tki = [tuple(kv) for kv in ds.tile(reps, shuffle=True).items()] if reps == 1 else None
+                except Exception:  # noqa  (reported above)
+                    tki = None
                 if tki is not None and sorted(tki) != pairs:
                     fails.append(('shuffled_items_not_input_pairs', {'view': 'tile(1, shuffle=True).items()', 'input_pairs': pairs, 'items': tki}))
             # buffer-local shuffle: model with the recorded draws + oracle
